@@ -249,6 +249,30 @@ void string_part() {
     sample("string d=/a//b.c/ with n in {a, b.c, ., .., 'x y', e-acute}");
 }
 
+// A Path is a name, not a snapshot: the same object asked again after the filesystem or the working directory changed answers for the world as it is now.
+void same_object_again(const std::string &scratch) {
+    std::string root = scratch + "/again"; fs::remove_all(root); fs::create_directories(root + "/d1/x"); fs::create_directories(root + "/d2"); fs::create_directories(root + "/d3");
+    { std::ofstream o(root + "/d2/x"); o << "file"; }
+    auto expect = [&](const Path &p, const char *what, const std::string &hist) {
+        std::error_code ec; std::string s = p.toString();
+        bool ex = fs::exists(s, ec), isf = fs::is_regular_file(s, ec), isd = fs::is_directory(s, ec);
+        shm->evaluations++; shm->transitions++; shm->nontrivial++;
+        if (p.exists() != ex || p.isFile() != isf || p.isDirectory() != isd)
+            violation("fs:stale-answer", fmt("%s: the same Path object (\"%s\") says exists=%d isFile=%d isDirectory=%d, the filesystem says %d %d %d", what, s.c_str(), p.exists(), p.isFile(), p.isDirectory(), ex, isf, isd), hist);
+    };
+    std::string hist = "again relative";
+    mark(hist);
+    { Path rel("x"); fs::current_path(root + "/d1"); expect(rel, "in d1 (x is a directory)", hist); fs::current_path(root + "/d2"); expect(rel, "in d2 (x is a file)", hist); fs::current_path(root + "/d3"); expect(rel, "in d3 (no x)", hist);
+      { tulz::DirectoryVisitor v{Path(root + "/d1")}; expect(rel, "inside a DirectoryVisitor of d1", hist); } expect(rel, "after the visitor", hist);
+      Path copy = rel; fs::current_path(root + "/d2"); expect(copy, "a copy, in d2", hist); }
+    hist = "again absolute";
+    mark(hist);
+    { Path abs(root + "/d3/y"); expect(abs, "missing", hist); { std::ofstream o(root + "/d3/y"); o << "1"; } expect(abs, "created as a file", hist); fs::remove(root + "/d3/y"); expect(abs, "removed", hist);
+      fs::create_directory(root + "/d3/y"); expect(abs, "re-created as a directory", hist); fs::remove(root + "/d3/y"); expect(abs, "removed again", hist); }
+    fs::current_path(scratch);
+    fs::remove_all(root);
+}
+
 // "empty and large files": directory totals beyond 2^31 and 2^32 bytes, made of sparse files (they cost no memory on tmpfs)
 void big_totals(const std::string &scratch) {
     std::string root = scratch + "/big"; fs::remove_all(root); fs::create_directories(root + "/media/raw");
@@ -267,6 +291,7 @@ void explore() {
     std::vector<std::function<void()>> tasks;
     tasks.push_back([] { string_part(); });
     tasks.push_back([=] { big_totals(scratch); });
+    tasks.push_back([=] { same_object_again(scratch); });
     tasks.push_back([=] {
         std::vector<size_t> lens = {64, 100, 200, 254, 255, 256, 257, 300, 511, 512, 513, 1000, 1023, 1024, 1025, 2047, 2048, 2049, 3000, 4000, 4083, 4084, 4085};   // every absolute path the oracle uses (cwd + "/sub/g") must stay below PATH_MAX
         if (thorough()) for (size_t l = 60; l <= 4085; l += 1) lens.push_back(l);
@@ -305,6 +330,7 @@ void replay(const std::string &hist) {
     std::string scratch = fmt("/dev/shm/tulz-verif-path-replay-%d", (int)getpid());
     fs::remove_all(scratch); fs::create_directories(scratch);
     if (hist.compare(0, 10, "bigtotals ") == 0) { big_totals(scratch); }
+    else if (hist.compare(0, 6, "again ") == 0) { same_object_again(scratch); }
     else if (hist.compare(0, 5, "tree@") == 0) { size_t sp = hist.find(' '); g_name_offset = atoi(hist.c_str() + 5); Forest f; size_t i = 0; std::string body = hist.substr(sp + 1); if (!dec(body, i, f)) violation("replay:parse", "cannot parse " + hist); else run_tree(f, scratch); g_name_offset = 0; }
     else if (hist.compare(0, 5, "tree ") == 0) { Forest f; size_t i = 0; std::string body = hist.substr(5); if (!dec(body, i, f)) violation("replay:parse", "cannot parse " + hist); else run_tree(f, scratch); }
     else if (hist.compare(0, 8, "deepcwd ") == 0) deep_cwd((size_t)atol(hist.c_str() + 8), scratch);
